@@ -43,7 +43,10 @@ def warm():
 # ---- filters ----------------------------------------------------------------------------------
 def gen_filter(rng, depth=1, prefix=""):
     if depth <= 0 or rng.random() < 0.5:
-        k = rng.choice(["x", "y", "uid"])
+        k = rng.choice(["x", "y", "uid", "bare"])
+        if k == "bare":
+            # a filter that is merely truthy or falsy (0, 1, 2, 3 / uid % n), not True or False
+            return rng.choice([["val", prefix + "x"], ["modval", prefix + "uid", rng.choice([2, 3])]])
         if k == "x":
             return ["cmp", prefix + "x", rng.choice(["==", "!=", ">", "<"]), rng.randint(0, 3)]
         if k == "y":
@@ -64,6 +67,10 @@ def render_filter(f, wrap=None):
         return f"{key(f[1])} {f[2]} {f[3]!r}"
     if op == "mod":
         return f"{key(f[1])} % {f[2]} == {f[3]}"
+    if op == "val":
+        return f"{key(f[1])}"
+    if op == "modval":
+        return f"({key(f[1])} % {f[2]})"
     if op == "not":
         return f"(not {render_filter(f[1], wrap)})"
     return f"({render_filter(f[1], wrap)} {op} {render_filter(f[2], wrap)})"
@@ -75,10 +82,14 @@ class Missing(Exception):
 
 def eval_filter(f, data):
     op = f[0]
-    if op in ("cmp", "mod"):
+    if op in ("cmp", "mod", "val", "modval"):
         if f[1] not in data:
             raise Missing(f[1])
         v = data[f[1]]
+        if op == "val":
+            return v
+        if op == "modval":
+            return v % f[2]
         if op == "mod":
             return v % f[2] == f[3]
         return {"==": v == f[3], "!=": v != f[3], ">": v > f[3] if not isinstance(v, str) else False, "<": v < f[3] if not isinstance(v, str) else False}[f[2]]
